@@ -35,15 +35,19 @@ def _case(draw, worlds):
     method = draw(st.sampled_from(['eigen', 'eigen', 'inverse']))
     prediv = draw(st.booleans()) if method == 'eigen' else False
     spec = draw(gens.model_spec(max_layers=4, max_dim=7, max_out=6, min_layers=1))
+    # interval pairs: non-multiples on purpose (a step that refreshes the inverses without a factor update right before it, after
+    # a factor-only step, needs (2,3) with >= 4 steps or (3,2) with >= 5)
+    fus, ius = draw(st.sampled_from([(1, 1), (1, 2), (1, 3), (2, 1), (2, 2), (3, 1), (3, 3), (2, 3), (3, 2), (2, 3), (3, 2)]))
+    steps = draw(st.integers(4, 6)) if (ius % fus != 0) else draw(st.integers(1, 4))
     case = {
         'W': W, 'method': method, 'prediv': prediv, 'spec': spec,
         'in_hook': draw(st.booleans()), 'accum': draw(st.sampled_from([1, 1, 2])),
         'N': draw(st.integers(1, 4)), 'style': draw(gens.style_strategy()),
-        'hp': {'factor_update_steps': draw(st.integers(1, 3)), 'inv_update_steps': draw(st.integers(1, 3)),
+        'hp': {'factor_update_steps': fus, 'inv_update_steps': ius,
                'damping': draw(gens.table_or_const([0.003, 0.01, 0.03, 0.1, 1.0])),
                'factor_decay': draw(st.sampled_from([0.95, 0.5, 0.9, 1.0])),
                'kl_clip': draw(st.sampled_from([1e30, 1e-3, 1e-5, 1e-2])), 'lr': draw(st.sampled_from([0.1, 1.0]))},
-        'steps': draw(st.integers(1, 4)), 'data_seed': draw(st.integers(0, 10 ** 5)), 'zero_to_none': draw(st.booleans()),
+        'steps': steps, 'data_seed': draw(st.integers(0, 10 ** 5)), 'zero_to_none': draw(st.booleans()),
         'A': draw(placement(W, method, prediv)), 'B': draw(placement(W, method, prediv)),
         'sched1': draw(st.lists(st.integers(0, 63), max_size=200)),
         'sched2': draw(st.lists(st.integers(0, 63), min_size=20, max_size=300)),
